@@ -45,7 +45,7 @@ class C06(BaseCheck):
   REQUIRED_CLASSES = ('phase:in-band', 'phase:pinned-max', 'phase:pinned-min', 'phase:pinned-members',
                       'expansion', 'contraction', 'jitter-round', 'member-down', 'leave-active',
                       'leave-during-jitter-round', 'close-raises-in-jitter-round',
-                      'second-balancer-connecting', 'wall-clock-steps-back', 'yielding-log-handler', 'leave-at-jitter-start')
+                      'second-balancer-connecting', 'wall-clock-steps-back', 'yielding-log-handler', 'leave-at-jitter-start', 'phase:trickle')
   ASSUMPTIONS = ('smoothed load = harness reference EMA with the balancer\'s documented 5 s window and the '
                  'same sampling points, on the documented clock (wall time while it moves forward; standing still while a stepped-back wall clock is behind an earlier reading) (cross-checked against the published load_average gauge); phases whose '
                  'per-member load is within 1e-6 of a band edge for a relevant size are skipped and counted',
@@ -539,6 +539,36 @@ class C06(BaseCheck):
              {'K': K, 'delta': delta, 'order': order, 'sizes': seen[-20:], 'per_member_load': per_member})
       if len(out.violations) >= 6:
         break
+    if idx % 4 == 1 and len(out.violations) < 6 and ss.truth and not jitter and open_mode != 'flaky':
+      # ---- trickle traffic: one short request every 12-61 s, never more than one outstanding.  The
+      # smoothed load cannot exceed 1, so whatever the band (max_load >= 1.5) the active set never
+      # has a reason to grow.
+      while live:
+        op(finish_one)
+      for c_ in w.channels:
+        if c_.down and not c_.close_steps:
+          c_.set_up()
+      op(lambda: env.advance(30.0))
+      log_mark_t = len(env.logs)
+      truth_t = set(ss.truth)
+      grew = []
+      for _i in range(6):
+        pre_t = sizes()[0]
+        op(issue)
+        op(lambda: env.advance(0.05))
+        op(finish_one)
+        gap_t = rng.choice([12.0, 30.0, 61.0])
+        op(lambda: env.advance(gap_t))
+        if sizes()[0] > max(pre_t, mn):
+          grew.append((pre_t, sizes()[0], lb._ema.value))
+      quiet_t = (all(c_._state == OPEN for c_ in w.heap_channels()) and set(ss.truth) == truth_t and
+                 not any('Marking node' in l_[2] or 'Exception caught' in l_[2] for l_ in env.logs[log_mark_t:]))
+      if quiet_t:
+        classes.add('phase:trickle')
+        out.obligations += 1
+        if grew:
+          viol('trickle-growth', 'one 50 ms request every 12-61 s (never more than one outstanding, max_load=%.1f): the active '
+               'set grew %r (size before, after, the balancer\'s smoothed load)' % (hi_load, grew[:3]), {})
     out.obligations += 1
     if growth_misses:
       g0 = growth_misses[0]
